@@ -16,20 +16,32 @@
 #include "venv.h"
 #include "tlsh.h"
 
-enum { F_NONE, F_SUB, F_TRUNC, F_BIGCERT, F_WSUB, F_WTRUNC, F_POST, NF };
-static const char *FN[] = { "none", "sub", "trunc", "bigcert", "wsub", "wtrunc", "post" };
-typedef struct { int kind, dir, idx; size_t off; int k; } fault_t;
+enum { F_NONE, F_SUB, F_TRUNC, F_BIGCERT, F_WSUB, F_WTRUNC, F_POST, F_EXT, NF };
+static const char *FN[] = { "none", "sub", "trunc", "bigcert", "wsub", "wtrunc", "post", "ext" };
+typedef struct { int kind, dir, idx; size_t off; int k; long arg; } fault_t;
 static fault_t FA; static int HAVE;
 #define MAXENC 16
-typedef struct { int status, c_done, s_done, nrec; struct { int dir; size_t len; uint8_t type, hs; } rec[64]; int nenc[2]; size_t enclen[2][MAXENC]; char guard[2][96]; } out_t;
+typedef struct { int status, c_done, s_done, nrec; struct { int dir; size_t len; uint8_t type, hs; } rec[64]; int nenc[2]; size_t enclen[2][MAXENC]; char guard[2][96]; uint8_t hello[2][900]; size_t hello_len[2]; } out_t;
 static out_t *XO; static side_creds SRV[3], CLI[3];
 static const uint8_t SUBV[7] = { 0x00, 0x01, 0x7f, 0x80, 0x81, 0xfe, 0xff };
 static uint8_t subst(uint8_t orig, int k) { return k < 7 ? SUBV[k] : (k == 7 ? orig ^ 0x01 : orig ^ 0x80); }
 
+/* ---- structure-aware rewriting of the extension block of a plaintext ClientHello / ServerHello record (all enclosing lengths re-encoded) ---- */
+typedef struct { size_t exts_off /* offset of the 2-byte extensions length inside the record, 0 if none */; int n; struct { size_t off, dlen; } e[24]; } hello_t;
+static int hello_parse(const uint8_t *rec, size_t len, hello_t *h) { memset(h, 0, sizeof *h); if (len < 9 + 35 || rec[0] != 22 || (rec[5] != 1 && rec[5] != 2)) return 0; size_t p = 9 + 2 + 32; if (p >= len) return 0; p += 1 + rec[p]; /* session id */ if (rec[5] == 1) { if (p + 2 > len) return 0; p += 2 + (((size_t)rec[p] << 8) | rec[p + 1]); if (p + 1 > len) return 0; p += 1 + rec[p]; } else p += 3;
+	if (p + 2 > len) return 0; size_t el = ((size_t)rec[p] << 8) | rec[p + 1]; if (p + 2 + el != len) return 0; h->exts_off = p; size_t q = p + 2; while (q + 4 <= len && h->n < 24) { size_t dl = ((size_t)rec[q + 2] << 8) | rec[q + 3]; if (q + 4 + dl > len) return 0; h->e[h->n].off = q; h->e[h->n].dlen = dl; h->n++; q += 4 + dl; } return q == len; }
+/* ops: 0 delete extension e; 1 repeat extension e arg times; 2 cut its data to arg bytes; 3 shrink the inner vector whose 2-byte length sits at data offset (arg >> 16) to (arg & 0xffff) bytes */
+static size_t hello_rewrite(uint8_t *rec, size_t len, size_t cap, int e, int op, long arg) { hello_t h; if (!hello_parse(rec, len, &h) || e >= h.n) return len; static uint8_t out[70000]; size_t k = h.exts_off + 2; memcpy(out, rec, k);
+	for (int i = 0; i < h.n; i++) { const uint8_t *x = rec + h.e[i].off; size_t dl = h.e[i].dlen; if (i != e) { memcpy(out + k, x, 4 + dl); k += 4 + dl; continue; }
+		if (op == 0) continue; if (op == 1) { for (long c = 0; c < arg && k + 4 + dl < 16000; c++) { memcpy(out + k, x, 4 + dl); k += 4 + dl; } continue; }
+		if (op == 2) { size_t nl = (size_t)arg < dl ? (size_t)arg : dl; out[k] = x[0]; out[k + 1] = x[1]; out[k + 2] = (uint8_t)(nl >> 8); out[k + 3] = (uint8_t)nl; memcpy(out + k + 4, x + 4, nl); k += 4 + nl; continue; }
+		{ size_t j = (size_t)(arg >> 16), t = (size_t)(arg & 0xffff); if (j + 2 > dl) { memcpy(out + k, x, 4 + dl); k += 4 + dl; continue; } size_t nl = j + 2 + t; out[k] = x[0]; out[k + 1] = x[1]; out[k + 2] = (uint8_t)(nl >> 8); out[k + 3] = (uint8_t)nl; memcpy(out + k + 4, x + 4, j); out[k + 4 + j] = (uint8_t)(t >> 8); out[k + 5 + j] = (uint8_t)t; memcpy(out + k + 6 + j, x + 4 + j + 2, t); k += 4 + nl; } }
+	if (k > cap || k > 16384 + 5) return len; size_t el = k - h.exts_off - 2, hl = k - 9, rl = k - 5; out[h.exts_off] = (uint8_t)(el >> 8); out[h.exts_off + 1] = (uint8_t)el; out[6] = (uint8_t)(hl >> 16); out[7] = (uint8_t)(hl >> 8); out[8] = (uint8_t)hl; out[3] = (uint8_t)(rl >> 8); out[4] = (uint8_t)rl; memcpy(rec, out, k); return k; }
 static int adv(vn_rec *r) {
 	if (!HAVE || FA.dir != r->dir || FA.idx != r->idx) return 1;
 	if (FA.kind == F_SUB) { if (FA.off < r->len) r->rec[FA.off] = subst(r->rec[FA.off], FA.k); }
 	else if (FA.kind == F_TRUNC) { size_t t = FA.off; if (t < r->len - 5) { r->len = 5 + t; r->rec[3] = (uint8_t)(t >> 8); r->rec[4] = (uint8_t)t; if (t >= 4) { size_t h = t - 4; r->rec[6] = (uint8_t)(h >> 16); r->rec[7] = (uint8_t)(h >> 8); r->rec[8] = (uint8_t)h; } } }
+	else if (FA.kind == F_EXT) { r->len = hello_rewrite(r->rec, r->len, r->cap, (int)FA.off, FA.k, FA.arg); }
 	else if (FA.kind == F_BIGCERT) { /* list of copies of the first certificate of the original message, FA.off bytes of DER in total (last one cut to fit is NOT done: whole certificates only) */
 		if (r->len < 5 + 4 + 3 + 3 + 4 || r->rec[5] != 11) return 1; size_t c1 = ((size_t)r->rec[12] << 16) | ((size_t)r->rec[13] << 8) | r->rec[14]; if (15 + c1 > r->len) return 1; static uint8_t cert[4096]; if (c1 > sizeof cert) return 1; memcpy(cert, r->rec + 15, c1);
 		size_t n = (FA.off + c1 - 1) / c1, k = 12; for (size_t i = 0; i < n && k + 3 + c1 < 16384 + 5; i++) { r->rec[k++] = (uint8_t)(c1 >> 16); r->rec[k++] = (uint8_t)(c1 >> 8); r->rec[k++] = (uint8_t)c1; memcpy(r->rec + k, cert, c1); k += c1; }
@@ -67,10 +79,10 @@ static int cep_task(void *arg) { cep_t *c = (cep_t *)arg; c->e.do_app = 0; c->e.
 static int P_, M_, POST_ = 1;
 static int run_child(void *unused) { (void)unused; static cep_t c, s; memset(&c, 0, sizeof c); memset(&s, 0, sizeof s); int proto = P_, mutual = M_; c.e.proto = s.e.proto = proto; c.e.is_client = 1; c.e.mutual = s.e.mutual = mutual; c.e.own = &CLI[proto]; s.e.own = &SRV[proto]; c.e.trust = &SRV[proto]; s.e.trust = mutual ? &CLI[proto] : NULL; c.e.entropy_key = 0xC11E17; s.e.entropy_key = 0x5E12BE12; c.e.entropy_fail_at = s.e.entropy_fail_at = -1; c.post = s.post = POST_;
 	vx_explore_env = 0; vn_adv = adv; vn_adv_after = adv_after; ep_hook = hook; ENCIDX[0] = ENCIDX[1] = 0; int cr, sr; XO->status = vnet_run2(cep_task, &c, cep_task, &s, &cr, &sr); XO->c_done = c.done; XO->s_done = s.done;
-	XO->nrec = vn_nlog < 64 ? vn_nlog : 64; for (int i = 0; i < XO->nrec; i++) { XO->rec[i].dir = vn_log[i].dir; XO->rec[i].len = vn_log[i].len; XO->rec[i].type = vn_log[i].hdr[0]; XO->rec[i].hs = vn_log[i].len > 5 ? vn_log[i].copy[5] : 0; } return 0; }
+	XO->nrec = vn_nlog < 64 ? vn_nlog : 64; for (int i = 0; i < XO->nrec; i++) { XO->rec[i].dir = vn_log[i].dir; XO->rec[i].len = vn_log[i].len; XO->rec[i].type = vn_log[i].hdr[0]; XO->rec[i].hs = vn_log[i].len > 5 ? vn_log[i].copy[5] : 0; } for (int i = 0; i < vn_nlog && i < 4; i++) if (vn_log[i].hdr[0] == 22 && vn_log[i].len > 5 && (vn_log[i].copy[5] == 1 || vn_log[i].copy[5] == 2) && vn_log[i].len <= 900) { int w = vn_log[i].copy[5] - 1; if (!XO->hello_len[w]) { memcpy(XO->hello[w], vn_log[i].copy, vn_log[i].len); XO->hello_len[w] = vn_log[i].len; } } return 0; }
 static vh_obs_t OB;
 static void run_exec(int p, int m) { memset(XO, 0, sizeof *XO); P_ = p; M_ = m; vh_obs_free(&OB); vh_fork(run_child, NULL, 40, &OB, NULL, 0, NULL); }
-static const char *fdesc(void) { static char b[160]; if (!HAVE) return "none"; snprintf(b, sizeof b, "%s:%s#%d+%zu/%d", FN[FA.kind], (FA.kind == F_WSUB || FA.kind == F_WTRUNC) ? (FA.dir ? "server-enc" : "client-enc") : (FA.dir ? "c2s" : "s2c"), FA.idx, FA.off, FA.k); return b; }
+static const char *fdesc(void) { static char b[160]; if (!HAVE) return "none"; snprintf(b, sizeof b, "%s:%s#%d+%zu/%d/%ld", FN[FA.kind], (FA.kind == F_WSUB || FA.kind == F_WTRUNC) ? (FA.dir ? "server-enc" : "client-enc") : (FA.dir ? "c2s" : "s2c"), FA.idx, FA.off, FA.k, FA.arg); return b; }
 static const char *report(void) { static char b[900]; b[0] = 0; if (!OB.err) return b; const char *p = strstr(OB.err, "ERROR: AddressSanitizer"); if (!p) p = strstr(OB.err, "MemorySanitizer:"); if (!p) p = strstr(OB.err, "runtime error"); if (!p) { size_t l = OB.errlen; p = OB.err + (l > 500 ? l - 500 : 0); } size_t n = 0; for (; *p && n < sizeof b - 1; p++) b[n++] = (*p == '"' || *p == '\\') ? ' ' : (*p == '\n' ? '|' : ((unsigned char)*p < 32 ? ' ' : *p)); b[n] = 0; return b; }
 static uint64_t OUTC[4];
 static void judge(int p, int m) { char key[200]; const char *cn = m ? "mutual" : "serverauth"; vh_eval(vh_hash(&FA, sizeof FA, p * 2 + m + 1));
@@ -91,6 +103,12 @@ static void body(void) {
 			for (size_t off = 0; off < rl; off++) { int dense = off < 5 || (plain_hs && off < 5 + dense_n); if (!dense && (off % step)) continue; for (int k = 0; k < 9; k++) { if (!vh_next()) continue; if (!(subs >> k & 1)) continue; if (vh_deadline_hit()) { vh_capped = 1; continue; } FA = (fault_t){ F_SUB, base.rec[i].dir, idxof[i], off, k }; run_exec(p, m); judge(p, m); } }
 			if (plain_hs) for (size_t t = 0; t + 5 < rl; t += (t < dense_n + 40 ? 1 : step)) { if (!vh_next()) continue; if (vh_deadline_hit()) { vh_capped = 1; continue; } FA = (fault_t){ F_TRUNC, base.rec[i].dir, idxof[i], t, 0 }; run_exec(p, m); judge(p, m); }
 			if (plain_hs && base.rec[i].hs == 11) { static const size_t T[] = { 2040, 2049, 2056, 2060, 2100, 4096, 4200, 6200, 8300, 12000, 16000 }; for (int k = 0; k < 11; k++) { if (!vh_next()) continue; FA = (fault_t){ F_BIGCERT, base.rec[i].dir, idxof[i], T[k], 0 }; run_exec(p, m); judge(p, m); } } }
+		/* hello extension blocks (TLS 1.2 and TLS 1.3): delete / repeat / cut every extension, shrink every inner vector that reaches the end of its extension */
+		for (int w = 0; w < 2; w++) { hello_t h; if (!base.hello_len[w] || !hello_parse(base.hello[w], base.hello_len[w], &h)) continue; int hdir = w == 0 ? 1 : 0; /* ClientHello travels c2s */ int hidx = 0;
+			for (int e = 0; e < h.n; e++) { size_t dl = h.e[e].dlen; const uint8_t *data = base.hello[w] + h.e[e].off + 4;
+#define EXTF(op_, arg_) do { if (vh_next()) { if (vh_deadline_hit()) vh_capped = 1; else { FA = (fault_t){ F_EXT, hdir, hidx, (size_t)e, (op_), (long)(arg_) }; run_exec(p, m); judge(p, m); } } } while (0)
+				EXTF(0, 0); static const long REP[] = { 2, 3, 8, 9, 60, 90, 200 }; for (int r_ = 0; r_ < 7; r_++) EXTF(1, REP[r_]); for (size_t t = 0; t < dl; t++) EXTF(2, t);
+				for (size_t j = 0; j + 2 <= dl; j++) { size_t v = ((size_t)data[j] << 8) | data[j + 1]; if (j + 2 + v != dl) continue; size_t ts[4] = { 0, 1, v ? v - 1 : 0, v / 2 }; for (int q = 0; q < 4; q++) { if (ts[q] >= v && v) continue; EXTF(3, ((long)j << 16) | (long)ts[q]); } } } }
 		if (p == 2) for (int side = 0; side < 2; side++) for (int e = 0; e < base.nenc[side]; e++) { size_t L = base.enclen[side][e]; 
 			for (size_t off = 0; off < L; off++) { int dense = off < dense_n; if (!dense && (off % step)) continue; for (int k = 0; k < 9; k++) { if (!vh_next()) continue; if (!(subs >> k & 1)) continue; if (vh_deadline_hit()) { vh_capped = 1; continue; } FA = (fault_t){ F_WSUB, side, e, off, k }; run_exec(p, m); judge(p, m); } }
 			for (size_t t = 0; t + 1 < L; t += (t < dense_n + 40 ? 1 : step)) { if (!vh_next()) continue; if (vh_deadline_hit()) { vh_capped = 1; continue; } FA = (fault_t){ F_WTRUNC, side, e, t, 0 }; run_exec(p, m); judge(p, m); } }
